@@ -248,7 +248,7 @@ fn synth(text: &str, v3: bool) -> Vec<Zone> {
             for ver in versions.iter().chain([1u8].iter()) {
                 for t in &tables {
                     let types_used = if t.is_empty() && *ver != 1 { vec![types[1]] } else if t.is_empty() { vec![types[1]] } else { types.clone() };
-                    out.push(Zone { version: *ver, transitions: t.clone(), types: types_used, footer: if *ver == 1 { None } else { Some(rule.clone()) }, footer_text: if *ver == 1 { String::new() } else { text.to_string() } });
+                    out.push(Zone { version: *ver, transitions: t.clone(), types: types_used, footer: if *ver == 1 { None } else { Some(rule.clone()) }, footer_text: if *ver == 1 { String::new() } else { text.to_string() }, leaps: 0, indicators: false });
                 }
             }
         }
@@ -285,7 +285,7 @@ fn synth(text: &str, v3: bool) -> Vec<Zone> {
                             continue;
                         }
                     }
-                    out.push(Zone { version: *ver, transitions: t.clone(), types: types.clone(), footer: Some(rule.clone()), footer_text: text.to_string() });
+                    out.push(Zone { version: *ver, transitions: t.clone(), types: types.clone(), footer: Some(rule.clone()), footer_text: text.to_string(), leaps: 0, indicators: false });
                 }
             }
         }
@@ -363,14 +363,24 @@ pub fn run(ctx: &Ctx) -> i32 {
         if zs.is_empty() {
             acc.branch("footer-not-iana-shaped-skipped");
         }
-        for z in zs {
+        // every shape once more with leap-second records and standard/wall + UT/local indicators present
+        let mut with_extras = vec![];
+        for (k, z) in zs.iter().enumerate() {
+            if (i as usize + k) % 3 == 0 {
+                let mut e = z.clone();
+                e.leaps = 2;
+                e.indicators = true;
+                with_extras.push(e);
+            }
+        }
+        for z in zs.into_iter().chain(with_extras) {
             let b = rz::write_tzif(&z);
             // the writer/reader pair must round-trip (self-check of the synthesiser)
             match rz::read_tzif(&b) {
                 Some(r) if r.transitions == z.transitions && r.footer == z.footer => {}
                 _ => acc.violation("harness", "synth-roundtrip", json!({"footer": text}), "reader(writer(z)) == z".into(), "mismatch".into()),
             }
-            let name = format!("synth v{} {} table={}", z.version, text, z.transitions.len());
+            let name = format!("synth v{} {} table={} leaps={}", z.version, text, z.transitions.len(), z.leaps);
             case_file(&name, &b, &z, false, acc);
             case_local(&name, &b, &z, 1_711_846_800, acc);
             acc.branch("synthesised-file");
